@@ -65,7 +65,7 @@ POSTCONDITION TraceAccepted
 CHECK_DEADLOCK FALSE
 """
 
-ACTIONS = ["Call", "Stat", "OpenR", "Load", "Doit", "OpenW", "Write", "Close", "Replace", "Return", "Crash"]
+ACTIONS = ["Call", "Stat", "OpenR", "Load", "Doit", "OpenW", "Write", "Close", "Replace", "Return", "Crash", "Plant"]
 
 
 def behaviour_to_schedule(beh):
@@ -76,6 +76,9 @@ def behaviour_to_schedule(beh):
             steps.append(["call", args[0], args[1]])
         elif a == "Doit":
             continue
+        elif a == "Plant":
+            # Plant(k, n): content under key k; bound to an expression with that key by the executor (e3 <-> k2, e1 <-> k1)
+            steps.append(["plant", 0, "e3" if args[0] == "k2" else "e1", "foreign" if args[1] == 2 else "truncated"])
         elif a == "Crash":
             steps.append(["crash", args[0]])
         else:
@@ -107,6 +110,11 @@ def enumerated_schedules(tier, rng, sizes):
             points = sorted({0, 1, 2, 5, size // 3, size // 2, size - 2, size - 1, size} | {rng.randrange(size) for _ in range(4)})
         for n in points:
             out.append([["call", 1, a], ["partial", 1, n], ["call", 2, a], ["run", 2], ["call", 1, "e2" if a == "e1" else "e1"], ["run", 1], ["call", 3, a], ["run", 3]])
+    # (e) the directory already holds something under the key: garbage, a truncated entry, a foreign pickle,
+    #     an entry in the layout of an older version, an entry whose stored result is not the unfolding
+    for a in exprs:
+        for what in ("garbage", "truncated", "empty-ish", "foreign", "oldformat"):
+            out.append([["plant", 0, a, what], ["call", 1, a], ["run", 1], ["call", 2, "e2" if a == "e1" else "e1"], ["run", 2], ["call", 3, a], ["run", 3]])
     # (d) hand-picked interleavings of two processes on one key (reader during write, double writers)
     w = ["Stat", "OpenW", "Write", "Write", "Close", "Replace", "Return"]
     for cut in range(1, 7):
@@ -136,7 +144,8 @@ def cause_tag(events, upto):
         elif e["ev"] in ("Return", "Crash", "PartialWrite", "Vanished"):
             in_flight.discard(e["p"])
             crashed |= e["ev"] in ("Crash", "PartialWrite")
-    return ("after-killed-writer" if crashed else "") + ("+concurrent" if conc else "") or "sequential"
+    planted = any(e["ev"] == "Plant" for e in events[:upto])
+    return ("pre-existing-content" if planted else "") + ("after-killed-writer" if crashed else "") + ("+concurrent" if conc else "") or "sequential"
 
 
 def run(chk, replay=None):
